@@ -78,6 +78,9 @@ func checkC17(c c17Case, r sess.Result) *Violation {
 	if !r.Ended {
 		return viol("c17/no-end", "tunnel did not end after the terminator; got %v", resps)
 	}
+	if !r.OutEnded {
+		return viol("c17/out-open", "the gateway closed RDG_IN_DATA but left the RDG_OUT_DATA connection of the tunnel open; got %v", resps)
+	}
 	if len(resps) == 0 || resps[0].Type != tsgu.PktHandshakeResponse {
 		return viol("c17/no-response", "no handshake response; got %v", resps)
 	}
